@@ -21,15 +21,53 @@ I64_MIN, I64_MAX = -2 ** 63, 2 ** 63 - 1
 
 HEADER = """import datetime, decimal, enum, ipaddress, uuid
 from dataclasses import dataclass, field
-from typing import (Any, Dict, FrozenSet, List, Literal, Mapping, NamedTuple, Optional, Sequence, Set, Tuple,
+from typing import (Annotated, Any, Dict, FrozenSet, List, Literal, Mapping, NamedTuple, Optional, Sequence, Set, Tuple,
                     TypedDict, Union)
 from mashumaro import DataClassDictMixin
+from mashumaro.config import ADD_DIALECT_SUPPORT, BaseConfig
+from mashumaro.dialect import Dialect
+from mashumaro.types import Discriminator
 from mashumaro.mixins.json import DataClassJSONMixin
 from mashumaro.mixins.orjson import DataClassORJSONMixin
 from mashumaro.mixins.yaml import DataClassYAMLMixin
 from mashumaro.mixins.msgpack import DataClassMessagePackMixin
 from mashumaro.mixins.toml import DataClassTOMLMixin
+
+
+# user dialects (call-time `dialect=` / codec `default_dialect=`): lossless strategy pairs; some touch the
+# types a format dialect declares native (bytes, bytearray, datetime, date), some do not
+class XD_empty(Dialect):
+    pass
+
+
+class XD_date(Dialect):
+    serialization_strategy = {datetime.date: {"serialize": datetime.date.toordinal, "deserialize": datetime.date.fromordinal}}
+
+
+class XD_bytes(Dialect):
+    serialization_strategy = {bytes: {"serialize": bytes.hex, "deserialize": bytes.fromhex}}
+
+
+def _ba_hex(b):
+    return bytes(b).hex()
+
+
+class XD_bytearray(Dialect):
+    serialization_strategy = {bytearray: {"serialize": _ba_hex, "deserialize": bytearray.fromhex}}
+
+
+class XD_datetime(Dialect):
+    serialization_strategy = {datetime.datetime: {"serialize": datetime.datetime.isoformat,
+                                                  "deserialize": datetime.datetime.fromisoformat}}
+
+
+class XD_uuid_decimal(Dialect):
+    serialization_strategy = {uuid.UUID: {"serialize": lambda u: u.hex, "deserialize": lambda s: uuid.UUID(hex=s)},
+                              decimal.Decimal: {"serialize": lambda d: [str(d)], "deserialize": lambda l: decimal.Decimal(l[0])}}
 """
+
+USER_DIALECTS = ["XD_empty", "XD_date", "XD_bytes", "XD_bytearray", "XD_datetime", "XD_uuid_decimal"]
+NATIVE_LEAVES = ["bytes", "bytearray", "date", "datetime", "time"]
 
 
 # ---------------------------------------------------------------------------
@@ -87,6 +125,12 @@ def ann(t: T) -> str:
         return f"Optional[{ann(t.args[0])}]"
     if k == "union":
         return "Union[" + ", ".join(ann(x) for x in t.args[0]) + "]"
+    if k == "any":
+        return "Any"
+    if k == "dunion":
+        return "Annotated[Union[" + ", ".join(ann(x) for x in t.args[0]) + f'], Discriminator(field="{t.args[1]}", include_supertypes=True)]'
+    if k == "dbase":
+        return t.name
     if k == "selfopt":
         return f'Optional["{t.name}"]'
     if k == "selflist":
@@ -136,8 +180,9 @@ def kinds_deep(t: T, S, acc=None, seen=None) -> set:
 class Schema:
     """A generated module: enums, named tuples, typed dicts, dataclasses (source text) + descriptors."""
 
-    def __init__(self, rng, jsonkind: str, small: bool = False):
+    def __init__(self, rng, jsonkind: str, small: bool = False, dialect_mode: bool = False):
         self.rng = rng
+        self.dialect_mode = dialect_mode   # every dataclass enables ADD_DIALECT_SUPPORT
         self.small = small                 # grammar of the Coq model (Format.v) only
         self.jsonkind = jsonkind           # which JSON mixin root classes carry: "json" | "orjson"
         self.defs: list[str] = []
@@ -192,7 +237,11 @@ class Schema:
         self.classes[name] = {"kind": "td", "fields": fields}
         return T("td", name=name)
 
-    def new_dc(self, depth, root=False, prefix="f", base: str | None = None) -> T:
+    def new_dc(self, depth, root=False, prefix="f", base: str | None = None, tag=None, discr_field=None,
+               force_native=False, need_mixin=False) -> T:
+        """tag = (field name, literal): adds `field: Literal[lit] = lit`; discr_field: class-level
+        Config.discriminator on that field (include_subtypes); force_native: one field of a type that some
+        format dialect declares native"""
         r = self.rng
         name = self.fresh("R" if root else "C")
         fields = []
@@ -200,7 +249,11 @@ class Schema:
         for i in range(nf):
             t = self.gen_type(depth - 1)
             fields.append([f"{prefix}{name.lower()}_{i}", t, None])
-        if not self.small and base is None and r.random() < 0.10:
+        if force_native:
+            fields.append([f"{prefix}{name.lower()}_nat", T(r.choice(NATIVE_LEAVES)), None])
+        if tag is not None:
+            fields.append([tag[0], T("lit", [tag[1]]), repr(tag[1])])
+        if not self.small and base is None and discr_field is None and r.random() < 0.10:
             if r.random() < 0.6:
                 fields.append([f"{prefix}{name.lower()}_self", T("selfopt", name=name), "None"])
             else:
@@ -208,6 +261,8 @@ class Schema:
         # defaults: Optional fields mostly default to None; a few stay required, a few get a non-None default
         for f in fields:
             t = f[1]
+            if discr_field is not None:     # a discriminator base keeps only required fields
+                continue
             if t.kind == "opt":
                 x = r.random()
                 if x < 0.72:
@@ -236,6 +291,8 @@ class Schema:
         fields.sort(key=lambda f: f[2] is not None)      # required first (stable)
         if root:
             bases += self.all_mixins() if base is None or True else []
+        elif base is None and need_mixin:   # subclasses must own their to_dict for polymorphic fields
+            bases += r.choice([["DataClassDictMixin"], self.all_mixins()])
         elif base is None:
             bases += r.choice([[], [], ["DataClassDictMixin"], self.all_mixins(),
                                ["DataClassMessagePackMixin"], ["DataClassTOMLMixin"]])
@@ -245,9 +302,16 @@ class Schema:
             bases = [b for b in bases if b not in have]
         mixins = [b for b in bases if b.startswith("DataClass")] + (self.classes[base]["mixins"] if base else [])
         body = "".join(f"    {f}: {ann(t)}" + (f" = {d}" if d else "") + "\n" for f, t, d in fields) or "    pass\n"
+        cfg = []
+        if self.dialect_mode:
+            cfg.append("code_generation_options = [ADD_DIALECT_SUPPORT]")
+        if discr_field is not None:
+            cfg.append(f'discriminator = Discriminator(field="{discr_field}", include_subtypes=True)')
+        if cfg:
+            body += "    class Config(BaseConfig):\n" + "".join(f"        {c}\n" for c in cfg)
         self.defs.append("@dataclass\nclass %s%s:\n%s" % (name, "(" + ", ".join(bases) + ")" if bases else "", body))
         allf = inherited + [tuple(f) for f in fields]
-        self.classes[name] = {"kind": "dc", "fields": allf, "mixins": mixins, "base": base}
+        self.classes[name] = {"kind": "dc", "fields": allf, "mixins": mixins, "base": base, "has_config": bool(cfg)}
         return T("dc", name=name)
 
     def gen_leaf(self, pool=None) -> T:
@@ -259,6 +323,8 @@ class Schema:
             return self.new_enum()
         if x < 0.12:
             return T("lit", r.choice([["x", "y"], ["x", 1], [1, 2, 3]]))
+        if x < 0.19:
+            return T("any")
         return T(r.choice(SCALAR_LEAVES))
 
     def gen_key(self) -> T:
@@ -290,7 +356,7 @@ class Schema:
         choices = ["list", "list", "dict", "dict", "opt", "opt", "opt", "tuplevar", "tuplefix", "set", "frozenset",
                    "mapping", "seq", "union"]
         if allow_classes:
-            choices += ["dc", "dc", "dc", "nt", "td", "dcunion", "child"]
+            choices += ["dc", "dc", "dc", "nt", "td", "dcunion", "child", "dunion", "dunion", "dbase"]
         c = r.choice(choices)
         if c in ("list", "seq", "tuplevar"):
             return T(c, self.gen_type(depth - 1, allow_classes))
@@ -319,6 +385,19 @@ class Schema:
             return self.new_nt(depth)
         if c == "td":
             return self.new_td(depth)
+        if c == "dunion":
+            fld = r.choice(["kind", "type", "t"])
+            vs = [self.new_dc(depth - 1, prefix=f"dv{i}", tag=(fld, lit), force_native=r.random() < 0.8)
+                  for i, lit in enumerate(r.choice([["a", "b"], ["x", "y", "z"], [1, 2]]))]
+            return T("dunion", vs, fld)
+        if c == "dbase":
+            if self.dialect_mode:       # ADD_DIALECT_SUPPORT + class-level discriminator is C12/C13 territory
+                return self.gen_leaf()
+            fld = r.choice(["kind", "type"])
+            b = self.new_dc(0, prefix="db", discr_field=fld, need_mixin=True)
+            vs = [self.new_dc(depth - 1, prefix=f"ds{i}", base=b.name, tag=(fld, lit), force_native=r.random() < 0.8)
+                  for i, lit in enumerate(["p", "q"])]
+            return T("dbase", vs, fld, name=b.name)
         if c == "dcunion":
             a = self.new_dc(depth - 1, prefix="ua")
             b = self.new_dc(depth - 1, prefix="ub")
@@ -393,6 +472,16 @@ TIMEDELTAS = [dt.timedelta(0), dt.timedelta(seconds=-1.5), dt.timedelta(microsec
 DECIMALS = ["0", "1.10", "-0.0", "1E+3", "123456789.123456789012345678", "-7", "0.000001"]
 
 
+def gen_any(r, depth):
+    """a JSON-like value for an Any-typed position (passed through untouched in both directions)"""
+    x = r.random()
+    if depth >= 2 or x < 0.45:
+        return r.choice([0, 1, -5, 2 ** 40, True, False, 1.5, -0.25, "", "s", "\u00e9", "1", None, "x y"])
+    if x < 0.75:
+        return [gen_any(r, depth + 1) for _ in range(r.choice([0, 1, 2, 3]))]
+    return {r.choice(["a", "b", "k k", "", "\u00e9", "1"]): gen_any(r, depth + 1) for _ in range(r.choice([0, 1, 2]))}
+
+
 def gen_value(t: T, S: Schema, mod, r, depth=0):
     k = t.kind
     if k == "none":
@@ -454,6 +543,10 @@ def gen_value(t: T, S: Schema, mod, r, depth=0):
             return None
         return gen_value(t.args[0], S, mod, r, depth)
     if k == "union":
+        return gen_value(r.choice(t.args[0]), S, mod, r, depth)
+    if k == "any":
+        return gen_any(r, 0)
+    if k in ("dunion", "dbase"):
         return gen_value(r.choice(t.args[0]), S, mod, r, depth)
     if k in ("selfopt", "selflist"):
         deep = depth > 6 or r.random() < 0.55
@@ -781,21 +874,24 @@ def ident(x, **kw):
 
 
 class Entry:
-    """One way to encode/decode shape S in format F.  kind: mixin | mixin-str (orjson to_json) | codec | func."""
+    """One way to encode/decode shape S in format F.  kind: mixin | mixin-str (orjson to_json) | codec | func.
+    dialect: a user dialect, given at call time (mixin: `dialect=`) or at construction (codec: `default_dialect=`)."""
 
-    def __init__(self, F, kind, shape, cache=None):
+    def __init__(self, F, kind, shape, cache=None, dialect=None):
         import importlib
-        self.F, self.kind, self.shape = F, kind, shape
+        self.F, self.kind, self.shape, self.dialect = F, kind, shape, dialect
+        self.kw = {"dialect": dialect} if dialect is not None else {}
         self.enc = self.dec = None
         if kind in ("codec", "func"):
             m = importlib.import_module(CODEC_MODS[F][0])
             if kind == "codec":
-                key = (F, id(shape))
+                key = (F, id(shape), id(dialect))
                 if cache is not None and key in cache:
                     self.enc, self.dec = cache[key]
                 else:
-                    self.enc = getattr(m, CODEC_MODS[F][1])(shape)
-                    self.dec = getattr(m, CODEC_MODS[F][2])(shape)
+                    ckw = {"default_dialect": dialect} if dialect is not None else {}
+                    self.enc = getattr(m, CODEC_MODS[F][1])(shape, **ckw)
+                    self.dec = getattr(m, CODEC_MODS[F][2])(shape, **ckw)
                     if cache is not None:
                         cache[key] = (self.enc, self.dec)
             else:
@@ -804,9 +900,9 @@ class Entry:
     def encode(self, v):
         F = self.F
         if self.kind == "mixin":
-            return getattr(v, MIXIN_METHODS[F][0])()
+            return getattr(v, MIXIN_METHODS[F][0])(**self.kw)
         if self.kind == "mixin-str":
-            return v.to_json()
+            return v.to_json(**self.kw)
         if self.kind == "codec":
             return self.enc.encode(v)
         return self.mod.encode(v, self.shape)
@@ -814,7 +910,7 @@ class Entry:
     def decode(self, doc):
         F = self.F
         if self.kind in ("mixin", "mixin-str"):
-            return getattr(self.shape, MIXIN_METHODS[F][1])(doc)
+            return getattr(self.shape, MIXIN_METHODS[F][1])(doc, **self.kw)
         if self.kind == "codec":
             return self.dec.decode(doc)
         return self.mod.decode(doc, self.shape)
@@ -825,15 +921,16 @@ class Entry:
         F = self.F
         if self.kind == "mixin":
             if F in ("json", "yaml"):
-                return v.to_dict()
-            return getattr(v, MIXIN_METHODS[F][0])(encoder=ident)
+                return v.to_dict(**self.kw)
+            return getattr(v, MIXIN_METHODS[F][0])(encoder=ident, **self.kw)
         return None
 
     def basic(self, v):
         if self.kind in ("mixin", "mixin-str"):
-            return v.to_dict()
+            return v.to_dict(**self.kw)
         from mashumaro.codecs.basic import BasicEncoder
-        return BasicEncoder(self.shape).encode(v)
+        ckw = {"default_dialect": self.dialect} if self.dialect is not None else {}
+        return BasicEncoder(self.shape, **ckw).encode(v)
 
 
 # ---------------------------------------------------------------------------
